@@ -102,4 +102,34 @@ theorem committed_is_kept_history (U : Universe) (m x : Nat) (noop : Bool) (hist
       aget (runHist m { store := { noop := noop }, kept := [] } hist).kept p = some v :=
   (hinv_history U m x hist _ (hinv_empty U m x noop) hok).kept p k hp
 
+theorem aget_of_mem_nodup {α} : ∀ {l : List (String × α)} {k : String} {v : α},
+    (k, v) ∈ l → (l.map Prod.fst).Nodup → aget l k = some v
+  | (a, b) :: l, k, v, hm, hnd => by
+    simp only [List.map_cons, List.nodup_cons, List.mem_map, not_exists, not_and] at hnd
+    simp only [aget]
+    rcases List.mem_cons.mp hm with h | h
+    · simp only [Prod.mk.injEq] at h
+      obtain ⟨rfl, rfl⟩ := h
+      simp
+    · by_cases hk : a = k
+      · subst hk; exact absurd rfl (hnd.1 (a, v) h)
+      · simp only [hk, if_false]; exact aget_of_mem_nodup h hnd.2
+
+/-- **every path a completed evaluation commits has its result in the store** (closed real store). The code commits only the
+paths whose blob is there (since the `fix:` commit for keeps that are not reached: a branch not taken, a loop that does not
+run); on the programs of the model, where every keep found by the analysis is reached, that filter removes nothing: the
+model's unfiltered `sync` is what the code does -/
+theorem commit_filter_is_identity (U : Universe) (m : Nat) (W : World) (S : PStore) (rq : Request)
+    (hW : U.world W) (hC : Closed U m S) (hn : S.noop = false)
+    {fn : Fn} {env : Env} {fis : FIS} {paths : List (String × Sg)}
+    (ha : analysisPhase m W S rq = .ok (fn, env, fis, paths)) (hs : Stage.eval ∈ rq.stages)
+    {v : RVal} (hv : (evalStep m W S rq).value = .ok (some v)) :
+    paths.filter (fun pk => (evalStep m W S rq).store.hasBlob pk.2) = paths := by
+  obtain ⟨_, _, _, _, P⟩ := analysisPhase_inv ha
+  have hnd := allStorePaths_nodup fis [] paths P.hpaths (by simp)
+  apply List.filter_eq_self.mpr
+  intro pk hpk
+  obtain ⟨p, k⟩ := pk
+  exact requested_paths_stored U m W S rq hW hC hn ha hs hv p k (aget_of_mem_nodup hpk hnd)
+
 end Dds.C04
